@@ -290,7 +290,7 @@ func runC07id(a hx.Args) string {
 
 func genC07id(rng *hx.Rng, n int, tier string, emit func(hx.Input)) {
 	sbRequests(rng, n*3/2, tier, func(r sbReq, tags []string) {
-		if r.StopKind == 3 {
+		if r.StopKind&15 == 3 {
 			return // arrival point of the stop is not reproducible; the transcript would differ on re-run
 		}
 		b := sbBoard(r.Root)
